@@ -217,6 +217,9 @@ def replay(rep, payload):
     if "decode" in c:
         import decodecheck
         return 1 if decodecheck.evaluate(rep, [c["decode"]]) else 0
+    if "frame" in c:
+        import decodecheck
+        return 1 if decodecheck.evaluate_frames(rep, [c["frame"]]) else 0
     if "ystream" in c:
         import decodecheck
         return 1 if decodecheck.evaluate_streams(rep, [c["ystream"]]) else 0
